@@ -149,3 +149,85 @@ func TestShards(t *testing.T) {
 	}
 	t.Log(one)
 }
+
+// a channel made outside any execution (package-level limiter of the code under test): adopted and
+// modelled, every execution starts from its post-init contents, a leaked slot is a visible deadlock
+var pkgSlots = func() *vsched.Chan[int] {
+	c := vsched.NewChan[int](3)
+	c.Send(7) // one slot taken during "package initialisation"
+	return c
+}()
+
+func TestPackageLevelChannel(t *testing.T) {
+	for _, leak := range []bool{false, true} {
+		var lens []int
+		cfg := Config{Name: "pkgchan", Bound: 1, CostAll: true, NewExec: func() (func(), func(*vsched.Exec) Verdict) {
+			body := func() {
+				lens = append(lens, pkgSlots.Len())
+				var wg vsched.WaitGroup
+				wg.Add(3)
+				for i := 0; i < 3; i++ {
+					i := i
+					vsched.Go(func() {
+						pkgSlots.Send(i)
+						if !(leak && i == 0) {
+							pkgSlots.Recv()
+						}
+						wg.Done()
+					})
+				}
+				wg.Wait()
+				if leak {
+					pkgSlots.Send(9)
+					pkgSlots.Send(9) // 1 (init) + 1 leaked + 2 = 4 > cap 3
+				}
+			}
+			return body, func(x *vsched.Exec) Verdict {
+				v := Verdict{Signature: x.Outcome.String()}
+				if x.Outcome != vsched.OutDone {
+					v.Violation = x.Outcome.String()
+				}
+				return v
+			}
+		}}
+		st := Explore(cfg)
+		if st.ToolError != "" {
+			t.Fatal(st.ToolError)
+		}
+		for _, l := range lens {
+			if l != 1 {
+				t.Fatalf("execution did not start from the post-init contents: len %d", l)
+			}
+		}
+		if leak != (st.Found != nil) {
+			t.Fatalf("leak=%v found=%v", leak, st.Found)
+		}
+		t.Logf("leak=%v execs=%d found=%v", leak, st.Execs, st.Found != nil)
+	}
+	if pkgSlots.Len() != 1 {
+		t.Fatalf("real channel contents disturbed: %d", pkgSlots.Len())
+	}
+}
+
+// select statements outside a controlled execution run on the real channels
+func TestSelectOutsideExecution(t *testing.T) {
+	c := vsched.NewChan[int](1)
+	d := vsched.NewChan[string](0)
+	if i, _, _ := vsched.Select(true, c.RecvCase(), d.RecvCase()); i != -1 {
+		t.Fatal("default expected", i)
+	}
+	if i, _, _ := vsched.Select(false, c.SendCase(5), d.RecvCase()); i != 0 {
+		t.Fatal("send expected", i)
+	}
+	if i, _, _ := vsched.Select(true, c.SendCase(6)); i != -1 {
+		t.Fatal("full buffer: default expected", i)
+	}
+	i, v, ok := vsched.Select(false, d.RecvCase(), c.RecvCase())
+	if i != 1 || !ok || vsched.As(c, v) != 5 {
+		t.Fatal("recv expected", i, v, ok)
+	}
+	var nilc *vsched.Chan[int]
+	if i, _, _ := vsched.Select(true, nilc.RecvCase(), nilc.SendCase(1)); i != -1 {
+		t.Fatal("nil channels never ready", i)
+	}
+}
